@@ -948,6 +948,14 @@ func (g *G) overOp(s *st) string {
 	inner := &st{ordered: true}
 	var sb strings.Builder
 	sb.WriteString("over " + target)
+	if g.nest > 0 {
+		// Inside a fork leg only the plain form is used: a lateral scope there can
+		// deadlock the flowgraph, and `=> over a => (...)` would read the next
+		// leg as a lateral body (hence the trailing pass).
+		s.fields = nil
+		s.recs = false
+		return sb.String() + " | pass"
+	}
 	if g.chance(30, "overwith") {
 		g.feat("over-with")
 		sb.WriteString(" with v=" + g.ref(s))
